@@ -33,11 +33,17 @@ func (t *fnTrans) instr(ins ssa.Instruction) {
 	switch x := ins.(type) {
 	case *ssa.DebugRef:
 		// remember which SSA value a source-level local currently names (for atcall / step clauses)
+		if id, ok := x.Expr.(*ast.Ident); ok && x.IsAddr {
+			// an address-taken local: remember its cell; clauses see its current content under the variable's name
+			if lv, known := t.lvals[x.X]; known && lv.Kind == lvCell {
+				t.locals = append(t.locals, localBinding{name: id.Name, blk: x.Block(), cell: lv})
+			}
+		}
 		if id, ok := x.Expr.(*ast.Ident); ok && !x.IsAddr {
 			if v, known := t.vals[x.X]; known {
-				t.locals = append(t.locals, localBinding{id.Name, x.Block(), v})
+				t.locals = append(t.locals, localBinding{name: id.Name, blk: x.Block(), val: v})
 			} else if _, isConst := x.X.(*ssa.Const); isConst {
-				t.locals = append(t.locals, localBinding{id.Name, x.Block(), t.val(x.X)})
+				t.locals = append(t.locals, localBinding{name: id.Name, blk: x.Block(), val: t.val(x.X)})
 			}
 		}
 		return
